@@ -361,8 +361,31 @@ func (e *Engine) verifyFuncMode(c *Contract, mode string) (rep *FuncReport) {
 		}
 		subs := splitClause(en)
 		for _, sub := range subs {
-			f := s.evalGoalClauseAt(fr, sub, out, nil, -1)
-			s.addObl(&Obligation{Name: fmt.Sprintf("%s/post.%s", short, clauseNameSplit(en, i, sub, len(subs))), Kind: "post", Func: short, Src: "ensures " + sub.Src, Guard: out.Reach, Formula: f, Using: en.Using})
+			oname := fmt.Sprintf("%s/post.%s", short, clauseNameSplit(en, i, sub, len(subs)))
+			var f T
+			// a postcondition that names the result of a call (callres) which the body never makes cannot hold
+			notYet := func() (ny bool) {
+				defer func() {
+					if r := recover(); r != nil {
+						if e, ok := r.(specErr); ok && strings.Contains(e.msg, "no such call executed yet") {
+							ny = true
+							return
+						}
+						if e, ok := r.(string); ok && strings.Contains(e, "no such call executed yet") {
+							ny = true
+							return
+						}
+						panic(r)
+					}
+				}()
+				f = s.evalGoalClauseAt(fr, sub, out, nil, -1)
+				return false
+			}()
+			if notYet {
+				s.addObl(&Obligation{Name: oname, Kind: "post", Func: short, Src: "ensures " + sub.Src + "   [names the result of a call that the body does not make]", Guard: out.Reach, Formula: TFalse, Using: en.Using})
+				continue
+			}
+			s.addObl(&Obligation{Name: oname, Kind: "post", Func: short, Src: "ensures " + sub.Src, Guard: out.Reach, Formula: f, Using: en.Using})
 		}
 	}
 	if c.ModGiven && c.Options["assumeframe"] == "" {
